@@ -13,7 +13,7 @@ import signal
 
 from common import HARNESS_FAULT, raised_in_harness, pack, ser_list, ser_n, ser_bool, run_packed_cases, clist, setup_impl_path
 
-IMPORTS = "From Conductor Require Import Lib.Str Lib.Cmp Model.Reaper."
+IMPORTS = "From Conductor Require Import Lib.Str Lib.Cmp Model.Reaper Model.Inflight."
 DEFS = """
 Definition ser_pc (p : rpc) : list N := match p with PIdle => [0] | PTest => [1] | PRead => [2] end.
 Definition ser_pair (x : nat * nat) : list N := [N.of_nat (fst x); N.of_nat (snd x)].
@@ -24,6 +24,10 @@ Definition ser_rstate (o : option rstate) : list N :=
               ++ ser_list ser_pair (rcs s) ++ ser_pc (pc s) ++ ser_list ser_pair (returned s)
   end.
 Definition reaper_hash (tr : list revent) : N := pack (ser_rstate (rrun false rinit tr)).
+(* ... and what _InflightOperations.wait_for_next_op made of the values wait() returned (Model/Inflight.v) *)
+Definition inflight_hash (tr : list revent) (t : list (nat * nat)) : N :=
+  pack (ser_rstate (rrun false rinit tr) ++
+        match rrun false rinit tr with Some s => ser_list ser_pair (completions t (returned s)) | None => [98] end).
 """
 
 
@@ -410,8 +414,14 @@ def protocol_part(chk, tier):
                                                                                                             "zombies": [list(z[:2]) for z in w.zombies], "pipe": w.pipe, "blocked": w.blocked},
                            "oracle_verdict": msg}, match_key={"reaper": msg.split(" ")[0]}, size=len(sched))
         if w.crash is None:
-            exprs.append("reaper_hash %s" % clist([coq_event(e) for e in w.log]))
-            wants.append(pack(ser_world(w)))
+            regs = [e[1] for e in sched if e[0] == "spawn" and len(e) > 2 and e[2]]
+            if len(set(regs)) == len(regs):
+                # the executor's table (operation := pid) and the completions it obtained
+                exprs.append("inflight_hash %s %s" % (clist([coq_event(e) for e in w.log]), clist(["(%d, %d)%%nat" % (p_, p_) for p_ in regs])))
+                wants.append(pack(ser_world(w) + ser_list(lambda x: [x[0], x[1]], list(w.op_results))))
+            else:
+                exprs.append("reaper_hash %s" % clist([coq_event(e) for e in w.log]))
+                wants.append(pack(ser_world(w)))
             kept.append((sched, w))
         del exits
     if chk.coq.model_ok and exprs:
@@ -426,6 +436,6 @@ def protocol_part(chk, tier):
             chk.coverage["traces_validated_against_impl"] += len(wl[off // shard]) - len(bad)
             for i in bad[:3]:
                 sched, w = kept[off + i]
-                chk.violation("correspondence", "the steps SigchldHelper took under the schedule %r are not a run of Model/Reaper.v ending in the same state: log %r, state zombies=%r pending=%s tripped=%s pipe=%d rcs=%r returned=%r"
-                              % (sched, w.log, [z[:2] for z in w.zombies], w.kpending, w.tripped, w.pipe, w.final_rcs, w.returned),
+                chk.violation("correspondence", "the steps SigchldHelper took under the schedule %r are not a run of Model/Reaper.v ending in the same state, or the completions _InflightOperations obtained are not those of Model/Inflight.v: log %r, state zombies=%r pending=%s tripped=%s pipe=%d rcs=%r returned=%r completions=%r"
+                              % (sched, w.log, [z[:2] for z in w.zombies], w.kpending, w.tripped, w.pipe, w.final_rcs, w.returned, w.op_results),
                               {"theorem_or_tie": "refinement: utils/sigchld.py vs Model/Reaper.v (rrun)", "input": {"part": "reaper-protocol", "schedule": [list(e) for e in sched]}}, found_input=False, size=len(sched))
